@@ -46,6 +46,7 @@ def run(chk):
     repo = chk.repo
     r1_preconditions(chk, repo)
     r2_stable_sorting(chk, repo)
+    r2b_sort_key(chk, repo)
     r3_predicates(chk, repo)
     r4_break(chk, repo)
     r5_inputs_untouched(chk, repo)
@@ -200,6 +201,28 @@ def fixtures():
     tree = ast.parse(src)
     hits = [c for c in ast.walk(tree) if isinstance(c, ast.Call) and (call_name(c) or "") in ("np.sort", "np.argsort")]
     return [{"fixture": "np.argsort outside sort_enforcement", "rule": "C17.R2", "fired": len(hits) == 1}]
+
+
+def r2b_sort_key(chk, repo):
+    """The composite key time * radix + channel orders by (time, channel) only if radix exceeds every
+    value of the very array that is added: the radix is `<that array>.max() + 1`."""
+    f = repo.func("sort_by_time", GENERAL)
+    d = Defs(f.node)
+    calls = [c for c in calls_in(f.node) if (call_name(c) or "").endswith("_sort_by_time_and_channel") and len(c.args) >= 3]
+    chk.check(len(calls) == 1, "C17.R2", f, None, "sort_by_time no longer calls the single-key sort at one place", site_text="sort_by_time: _sort_by_time_and_channel(x, channel, radix)")
+    for c in calls:
+        arr, radix = c.args[1], c.args[2]
+        rv = d.single(radix.id) if isinstance(radix, ast.Name) else radix
+        ok = rv is not None and norm(rv).replace(" ", "") in (f"{norm(arr)}.max()+1", f"np.max({norm(arr)})+1", f"1+{norm(arr)}.max()")
+        chk.check(ok, "C17.R2", f, stmt_of(c), f"the radix of the composite sort key is `{norm(rv) if rv is not None else norm(radix)}`, not `{norm(arr)}.max() + 1` of the array that is added to it: keys of neighbouring times can collide and the result is not sorted by time", site_text="sort_by_time: radix = channel.max() + 1 of the shifted channel array", site={"function": f.qualname, "rule": "sort key radix"})
+    k = repo.func("_sort_by_time_and_channel", GENERAL)
+    keys = [st for st in walk_body(k.node) if isinstance(st, ast.Assign) and isinstance(st.value, ast.BinOp) and isinstance(st.value.op, ast.Add) and isinstance(st.value.left, ast.BinOp) and isinstance(st.value.left.op, ast.Mult)]
+    okk = False
+    for st in keys:
+        l, r_ = st.value.left, st.value.right
+        fac = [norm(x) for x in (l.left, l.right)]
+        okk = okk or (norm(r_) == k.params[1] and k.params[2] in fac and any("['time']" in t for t in fac))
+    chk.check(okk, "C17.R2", k, keys[0] if keys else None, "the sort key is not (time - min time) * radix + channel", site_text="_sort_by_time_and_channel: key = time * radix + channel")
 
 
 def r3_predicates(chk, repo):
@@ -362,6 +385,8 @@ def r5_inputs_untouched(chk, repo):
 
 
 WITNESSES = [
+    W("sort key radix from the unshifted channels", "C17.R2", GENERAL,
+      "x = _sort_by_time_and_channel(x, channel, channel.max() + 1)", "x = _sort_by_time_and_channel(x, channel, np.abs(x[\"channel\"]).max() + 1)"),
     W("split_touching_windows ignores its window", "C17.R7", GENERAL,
       "windows = touching_windows(things, containers, window)", "windows = touching_windows(things, containers)"),
     W("sort_by_time shifts the caller's channel numbers", "C17.R5", GENERAL,
